@@ -106,6 +106,7 @@ class quote_type_if_needed:
 
 @contract('pydbml.tools:doublequote_string')
 class doublequote_string:
+    returns_defines = True     # the abstract name IS this function's result; its content is the ensures below
     properties = ('C02', 'C08')
     params = {'source': 'str'}
     pure = True
@@ -336,6 +337,7 @@ def props_shown(owner_db, props):
 
 @contract('pydbml.renderer.dbml.default.column:render_options')
 class column_render_options:
+    returns_defines = True     # the abstract name IS this function's result; its content is the ensures below
     properties = ('C02', 'C15', 'C10', 'C13')
     params = {'model': 'Column'}
     pure = True
